@@ -287,24 +287,24 @@ def run_loop(case):
 
         patches.append((mod, "cem_sample", cem_sample))
     else:
-        # smoothed target actions: observe the sampler's product inside the loop
-        mod = importlib.import_module(run.patch_modules[0])
-        if hasattr(mod, "make_sample_target_actions"):
-            orig_mk = mod.make_sample_target_actions
+        # smoothed target actions: export the sampler's product from inside the
+        # jitted function (td3.sample_target_actions is looked up by
+        # make_sample_target_actions, which TD3+LAP, TD7 and MR.Q import)
+        td3mod = importlib.import_module("rl_blox.algorithm.td3")
+        orig_sta = td3mod.sample_target_actions
 
-            def mk(space, noise, clip):
-                f = orig_mk(space, noise, clip)
-                if algo == "mrq":
-                    return f  # wrapped by nnx.cached_partial: leave untouched
+        def sample_target_actions(action_low, action_high, action_scale,
+                                  exploration_noise, noise_clip, policy, obs, key):
+            out = orig_sta(action_low, action_high, action_scale,
+                           exploration_noise, noise_clip, policy, obs, key)
+            base = policy(obs)
+            jax.debug.callback(
+                lambda a, b_, c=float(noise_clip): tr.ev(
+                    "target_actions", a=np.array(a), base=np.array(b_), clip=c),
+                out, base)
+            return out
 
-                def g(policy, obs, key):
-                    out = f(policy, obs, key)
-                    tr.ev("target_actions", a=np.asarray(out),
-                          base=np.asarray(policy(obs)), clip=clip)
-                    return out
-                return g
-
-            patches.append((mod, "make_sample_target_actions", mk))
+        patches.append((td3mod, "sample_target_actions", sample_target_actions))
     with rebound(patches):
         ok, _ = guarded(res, f"C10/raises/train_{algo}", run.call)
     if not ok:
